@@ -1,7 +1,11 @@
 """C08 Cholesky / LDL^T / QR.  Case: (8 op ty (n0 n1) rows cols (x ...))
    op 1 = Cholesky, 2 = LDL^T, 3 = QR; ty 0 = Rat (entries (num den)), 1 = Fp (residues mod
    2^31-1, `sqrt` = the uninterpreted polynomial x^3+7x+23 on BOTH element types, order of Fp =
-   order of residues); n0 n1 = dimension names of the tensor forms.  Result: absent `()` or the
+   order of residues), 2 = StrictRat (entries and values as Rat, but the implementation-side `/`
+   PANICS on a zero divisor as ordinary exact types do; the model runs its total rationals: zero /
+   non-positive pivot -> absent, "never a panic", so absence must be decided before any division
+   by the pivot; a panic of any entry point is the result `(2)`, which no model result equals);
+   n0 n1 = dimension names of the tensor forms.  Result: absent `()` or the
    exact factors with their shapes and names.  The factors are compared exactly as computation
    skeletons (same field operations, same sqrt calls, same comparisons); the eight tensor/view
    forms and the Matrix routine are cross-checked inside the harness.
@@ -10,12 +14,18 @@
    R's sub-diagonal at most 1e-12*|A|; exact zeros / unit diagonal; all entry points bit for bit),
    the model predicts presence exactly over the rationals.  Inputs: well-conditioned SPD
    (B*B^T + nI), their negatives / one negative diagonal entry (absent), scaled by 2^520 and
-   2^-540; diagonally dominant symmetric for LDL^T; QR: full-column-rank random and GRADED
+   2^-540; L*L^T from random dyadic-rational lower-triangular L with positive diagonal, sizes 1..8; diagonally dominant symmetric for LDL^T; QR: full-column-rank random and GRADED
    columns (sub-diagonal part 1e-8 .. 1e-10 relative to the diagonal entry), N > M shapes.
    Families: symmetric random, B*B^T + cI, rank-deficient B*B^T, indefinite, asymmetric, inputs
    crafted (by running the same skeleton here) so that the pivot of row/column k is exactly zero or
    just below / above zero, non-square shapes; QR: every shape M>=N and N>M up to 5x5 (larger for
-   Fp), zero columns, zero / negative / positive leading entries, 1x1 and Nx1 inputs."""
+   Fp), zero columns, zero / negative / positive leading entries, 1x1 and Nx1 inputs.
+   StrictRat (ty 2): EXHAUSTIVE all 2x2 over {-1,0,1,2}, all symmetric 2x2 over -3..3 and all
+   symmetric 3x3 over {-1,0,1} for Cholesky and LDL^T; the documented zero-pivot inputs ([[0]],
+   [[0,1],[1,0]], PSD [[1,1],[1,1]], singular [[4,2,1],[2,1,3],[1,3,9]]); every family above for
+   sizes 1..6 (LDL^T) / 1..3 (Cholesky; 4 in the thorough tier) incl. pivots crafted to be exactly zero at every step k
+   (first, middle, last); rank-deficient B*B^T; non-square shapes; QR shapes with at most one
+   reflection incl. zero columns and the zero matrix."""
 import itertools
 from fractions import Fraction
 from tools.vlib import sx
@@ -27,6 +37,7 @@ ASSUMPTIONS = [
     "Rat inputs: Cholesky up to 4x4 and QR with at most one reflection (the polynomial stand-in cubes the size of the numbers twice per reflection); Fp covers sizes 1..8 and every QR shape up to 5x5; on Fp the order is the order of residues, so `<= 0` is `== 0` there and the sign branch of Householder is `!= 0`",
     "Cholesky completeness (present <-> positive definite), R upper triangular and regularity from full column rank are proved over real closed fields with sqrt = Num.sqrt (every rcfType; no instance is constructed here) and, in oracle-parametric form, over any real field for runs on which the oracle answered correctly (concrete instances: Coq's reals for Cholesky, a rational run for QR)",
     "floats ('to rounding accuracy') are not modelled",
+    "'never a panic' is not a theorem (the model's division is total, Panic is not a model outcome): it is observed by the correspondence — every entry point runs under catch_unwind and element type 2 (StrictRat) turns a division by zero into a panic, so absence has to be decided before any division by the pivot",
 ]
 
 
@@ -48,6 +59,11 @@ class Rat:
     def sub(a, b): return a - b
     @staticmethod
     def mul(a, b): return a * b
+
+
+class SRat(Rat):
+    """StrictRat: the values of Rat; only the implementation's division differs (panics on 0)"""
+    ty = 2
 
 
 class Fp:
@@ -172,7 +188,7 @@ def square_family(rng, n, fam):
 
 
 def gen(tier, rng):
-    cases = list(_gen(tier, rng)) + list(_float_cases(tier, rng))
+    cases = list(_gen(tier, rng)) + list(_float_cases(tier, rng)) + list(_strict_cases(tier, rng))
     rng.shuffle(cases)
     return cases
 
@@ -273,6 +289,109 @@ def _gen(tier, rng):
                     yield case(3, Rat, names_of(rng), m)
 
 
+def _strict_cases(tier, rng):
+    """ty 2 = StrictRat: inputs on which a zero divisor is one careless reordering away"""
+    quick = tier == "quick"
+    rep = 1 if quick else 5
+    F = SRat
+    conv = lambda m: [[F.of(x) for x in r] for r in m]
+    fixed = [
+        [[0]], [[0, 1], [1, 0]], [[1, 1], [1, 1]], [[4, 2, 1], [2, 1, 3], [1, 3, 9]],
+        [[0, 0], [0, 0]], [[0, 0, 0], [0, 0, 0], [0, 0, 0]], [[1, 2], [2, 4]], [[-1, 1], [1, -1]],
+        [[1, 0, 0], [0, 0, 1], [0, 1, 0]], [[2, 1, 1], [1, 1, 1], [1, 1, 1]],
+        [[1, 1, 0], [1, 1, 1], [0, 1, 5]], [[4, 2, 2, 1], [2, 2, 1, 1], [2, 1, 2, 1], [1, 1, 1, 1]],
+        [[6, 4, 2], [4, 12, 5], [2, 5, 7]], [[1, 3], [3, 8]],
+    ]
+    for m in fixed:
+        for op in (1, 2):
+            yield case(op, F, (0, 1), conv(m))
+            yield case(op, F, (1, 0), conv(m))
+    # exhaustive small
+    for e in itertools.product((-1, 0, 1, 2), repeat=4):
+        for op in (1, 2):
+            yield case(op, F, (0, 1), conv([[e[0], e[1]], [e[2], e[3]]]))
+    for a, b, c in itertools.product(range(-3, 4), repeat=3):
+        for op in (1, 2):
+            yield case(op, F, (2, 5), conv([[a, b], [b, c]]))
+    for e in itertools.product((-1, 0, 1), repeat=6):
+        m = [[e[0], e[1], e[2]], [e[1], e[3], e[4]], [e[2], e[4], e[5]]]
+        for op in (1, 2):
+            yield case(op, F, (3, 1), conv(m))
+    # 1x1
+    for v in [Fraction(x) for x in range(-3, 4)] + [Fraction(1, 3), Fraction(-2, 5)]:
+        for op in (1, 2, 3):
+            yield case(op, F, (0, 1), [[v]])
+    # LDL^T: the families, and the pivot of column k made exactly zero / non-zero
+    for n in range(1, 7):
+        for fam in range(7):
+            for _ in range((10 if n <= 4 else 4) * rep):
+                yield case(2, F, names_of(rng), conv(square_family(rng, n, fam)))
+        for k in range(n):
+            for _ in range((6 if n <= 4 else 3) * rep):
+                a = conv(square_family(rng, n, rng.choice([0, 1, 4, 5, 6])))
+                s0 = ldlt_prefix_sum(F, a, k)
+                if s0 is None:
+                    continue
+                for delta in (0, 0, 1):
+                    b = [list(r) for r in a]
+                    b[k][k] = F.add(s0, F.of(delta))
+                    if delta == 0 and k + 1 < n and rng.random() < 0.5:
+                        # keep the rest of the column non-zero so that a division would matter
+                        for i in range(k + 1, n):
+                            b[i][k] = b[k][i] = F.add(b[i][k], F.of(1))
+                    yield case(2, F, names_of(rng), b)
+        # rank deficient B*B^T (PSD, a zero pivot at step rank)
+        for rank in range(1, n):
+            for _ in range(3 * rep):
+                yield case(2, F, names_of(rng), conv(bbt(rng, n, rank=rank)))
+                if n <= 3:
+                    yield case(1, F, names_of(rng), conv(bbt(rng, n, rank=rank)))
+    # Cholesky: families and crafted pivots (zero, just below, just above); 4x4 only in the thorough
+    # tier and in the fixed list above (half a second per case in the extracted model: the stand-in
+    # sqrt cubes the numbers; Rat already runs the same 4x4 skeletons)
+    for n in range(1, 4 if quick else 5):
+        heavy = n == 4
+        for fam in range(7):
+            for _ in range((1 if heavy else 12) * rep):
+                yield case(1, F, names_of(rng), conv(square_family(rng, n, fam)))
+        for k in range(n):
+            for _ in range((1 if heavy else 5) * rep):
+                a = conv(square_family(rng, n, rng.choice([1, 5, 0])))
+                pre = chol_prefix(F, a, k)
+                if pre is None:
+                    continue
+                _, cur = pre
+                s0 = F.of(0)
+                for t in range(k):
+                    s0 = F.add(s0, F.mul(cur[t], cur[t]))
+                for delta in (0, -1, 1) + (() if heavy else (Fraction(1, 10 ** 9),)):
+                    b = [list(r) for r in a]
+                    b[k][k] = F.add(s0, F.of(delta))
+                    yield case(1, F, names_of(rng), b)
+    # non-square
+    for (r, c) in [(1, 2), (2, 1), (2, 3), (3, 2), (1, 4), (4, 3), (3, 5)]:
+        m = [[rng.randrange(-3, 4) for _ in range(c)] for _ in range(r)]
+        for op in (1, 2):
+            yield case(op, F, names_of(rng), conv(m))
+    # QR: at most one reflection (as for Rat); zero columns / zero matrices / dependent columns
+    for (r, c) in [(r, c) for r in range(1, 6) for c in range(1, 6)]:
+        if not (c > r or min(r - 1, c) <= 1):
+            continue
+        yield case(3, F, names_of(rng), conv([[0] * c for _ in range(r)]))
+        for _ in range(3 * rep):
+            m = [[rng.randrange(-4, 5) for _ in range(c)] for _ in range(r)]
+            yield case(3, F, names_of(rng), conv(m))
+            z = [list(row) for row in m]
+            j = rng.randrange(c)
+            for i in range(r):
+                z[i][j] = 0
+            yield case(3, F, names_of(rng), conv(z))
+            z = [list(row) for row in m]
+            for i in range(1, r):
+                z[i][0] = 0
+            yield case(3, F, names_of(rng), conv(z))
+
+
 def frac_rank(m):
     """column rank of a matrix of Fractions"""
     m = [list(r) for r in m]
@@ -324,6 +443,17 @@ def _float_cases(tier, rng):
             z0[0][0] = 0
             yield fcase(2, names_of(rng), z0, 0)
             yield fcase(1, names_of(rng), z0, 0)
+    # A = L*L^T from a random dyadic-rational lower-triangular L with positive diagonal (the
+    # pivots are the squares of L's diagonal: "perfect-square-friendly"), sizes 1..8
+    for n in range(1, 9):
+        for _ in range(4 * rep):
+            lo = [[Fraction(rng.randrange(-4, 5), rng.choice([1, 2, 4])) if j < i
+                   else (Fraction(rng.randrange(1, 6), rng.choice([1, 2])) if i == j else Fraction(0))
+                   for j in range(n)] for i in range(n)]
+            llt = [[sum(lo[i][k] * lo[j][k] for k in range(n)) for j in range(n)] for i in range(n)]
+            for scale in (0, rng.choice([520, -540, 64])):
+                yield fcase(1, names_of(rng), llt, scale)
+                yield fcase(2, names_of(rng), llt, scale)
     for (r, c) in [(2, 3), (3, 2), (1, 4)]:
         m = [[rng.randrange(-3, 4) for _ in range(c)] for _ in range(r)]
         yield fcase(1, (0, 1), m)
